@@ -180,3 +180,30 @@ def doc_angles(tree) -> dict:
         frame = [] if S == root else [S, *chain(S)]
         out[name] = (list(target), [list(f) for f in frame])
     return out
+
+
+def parse_boost_momentum(x) -> tuple[frozenset, tuple]:
+    """momentum in a chain of pure boosts: ArraySum/symbol, or ArrayMultiplication(BoostMatrix(Q), P)
+    -> (set of final-state ids, chain of boosted-into systems, outermost first)."""
+    name = _cls(x)
+    if name == "ArrayMultiplication" and len(x.args) == 2 and _cls(x.args[0]) == "BoostMatrix":
+        q = x.args[0].args[0]
+        sq, fq = parse_boost_momentum(q)
+        spp, fp = parse_boost_momentum(x.args[1])
+        if fq != fp:
+            raise ProjectionError("boost and boosted momentum live in different frames")
+        return spp, fp + (sq,)
+    if name == "ArrayMultiplication":
+        raise ProjectionError("boost chain contains a non-boost transformation")
+    return parse_momentum(x)
+
+
+def project_boost_chain(boosts) -> list[dict]:
+    """[BoostMatrix(...)...] from compute_boost_chain -> [{"system": ids, "frame": [[ids]...]}] (frame innermost first)."""
+    out = []
+    for b in boosts:
+        if _cls(b) != "BoostMatrix":
+            raise ProjectionError(f"boost chain element {_cls(b)}")
+        s_, frame = parse_boost_momentum(b.args[0])
+        out.append({"system": sorted(s_), "frame": [sorted(f) for f in reversed(frame)]})
+    return out
